@@ -228,6 +228,12 @@ func (c *Ctx) VerifyFunc(pkgPath, key string) (rep *FuncReport) {
 			c.oblige(fr, "safe", fmt.Sprintf("panic@%s", c.posKey(p.pos)), p.st, Or(allowed...), "explicit panic only under the declared conditions", p.pos)
 		}
 	}
+	// every at-call clause must have matched at least one call (otherwise the contract silently stopped applying)
+	for i, ac := range con.AtCalls {
+		if !fr.atCallHit[i] {
+			c.oblige(fr, "at-call", ac.Callee+"."+clauseName("", ac.Clause, i)+"@missing", fr.Entry, TFalse, "the function no longer calls "+ac.Callee+" (at-call clause has no call site)", 0)
+		}
+	}
 	rep.Obligations = len(c.Obs) - nobs
 	return
 }
